@@ -68,10 +68,15 @@ type eCase struct {
 	//   pflush  persisted mode uses a persister WithFlush()
 	//   shared  persisted mode with res=db/dbfs keeps the session in the store that also holds the application
 	//   static  with res=db/dbfs, handler symbols that only return fixed content are stored under STATICLOAD
-	opts      map[string]bool
-	asmNodes  map[string][]byte
-	preferAsm bool // generator hint: serve through the assembler more often
-	preferLp  bool // generator hint: also serve with a long-lived engine that has a persister
+	//   shadow  long-lived mode: the resource hands out the bytecode slices themselves (with spare capacity, as a
+	//           bytes.Buffer gives), and before every request a second, independent session of the same application is
+	//           served from the same resource data: it repeats the history so far and then takes another branch.
+	//           Sessions share nothing mutable, so the case's own session must behave exactly as it does alone.
+	opts         map[string]bool
+	asmNodes     map[string][]byte
+	preferAsm    bool // generator hint: serve through the assembler more often
+	preferLp     bool // generator hint: also serve with a long-lived engine that has a persister
+	preferShadow bool // generator hint: serve with a shadow session
 }
 
 func (c *eCase) opt(k string) bool { return c.opts != nil && c.opts[k] }
@@ -442,8 +447,9 @@ type recRes struct {
 	c       *eCase
 	lookups []lookupRec
 	calls   []callRec
-	ncalls  *int // shared across the engines of one session
-	share   bool // hand out the application's bytecode slices themselves (suite conc)
+	ncalls  *int              // shared across the engines of one session
+	share   bool              // hand out the application's bytecode slices themselves (suite conc)
+	codes   map[string][]byte // with share: the slices to hand out (with spare capacity), shared by several sessions
 }
 
 func ctxLang(ctx context.Context) *string {
@@ -486,6 +492,9 @@ func (r *recRes) GetCode(ctx context.Context, sym string) ([]byte, error) {
 	b, ok := r.c.codeOf(sym)
 	if !ok {
 		return nil, fmt.Errorf("nocode %s", sym)
+	}
+	if r.share && r.codes != nil {
+		return r.codes[sym], nil
 	}
 	if r.share {
 		return b, nil
@@ -840,6 +849,15 @@ func (c *eCase) run(mode string) []reqRec {
 	cfg := c.config()
 	if mode == "long" {
 		rs := &recRes{c: c, ncalls: &ncalls}
+		shadow := c.opt("shadow") && c.res == ""
+		if shadow {
+			rs.share = true
+			rs.codes = map[string][]byte{}
+			for k := range c.nodes {
+				b, _ := c.codeOf(k)
+				rs.codes[k] = append(make([]byte, 0, len(b)+96), b...)
+			}
+		}
 		st := state.NewState(uint32(c.flags))
 		ca := cache.NewCache()
 		if c.cache > 0 {
@@ -856,6 +874,9 @@ func (c *eCase) run(mode string) []reqRec {
 			if stopped {
 				recs = append(recs, reqRec{x: "stopped"})
 				continue
+			}
+			if shadow && len(recs) >= 1 {
+				c.shadowSession(rs.codes, c.inputs[:len(recs)])
 			}
 			rs.calls, rs.lookups = nil, nil
 			rec := reqRec{}
@@ -973,6 +994,39 @@ func (c *eCase) runPers(store db.Db, inputs [][]byte, ncallsp *int, before func(
 	}
 	_ = db.DATATYPE_STATE
 	return recs
+}
+
+// shadowSession serves another, independent session of the same application from the same bytecode slices: it repeats
+// the given history except for the last input, where it takes another branch the pending code offers.
+func (c *eCase) shadowSession(codes map[string][]byte, hist [][]byte) {
+	ncalls := 0
+	rs := &recRes{c: c, ncalls: &ncalls, share: true, codes: codes}
+	st := state.NewState(uint32(c.flags))
+	ca := cache.NewCache()
+	if c.cache > 0 {
+		ca = ca.WithCacheSize(uint32(c.cache))
+	}
+	en := engine.NewEngine(c.config(), rs).WithState(st).WithMemory(ca)
+	if f := rs.firstFunc(); f != nil {
+		en = en.WithFirst(f)
+	}
+	for i, in := range hist {
+		if i == len(hist)-1 {
+			alt := []byte("0")
+			for _, s := range pendingSelectors(st.Code) {
+				if s != string(in) {
+					alt = []byte(s)
+					break
+				}
+			}
+			in = alt
+		}
+		rec := reqRec{}
+		oneRequest(en, in, &rec)
+		if rec.x == "panic" || rec.f == "panic" || (rec.x == "ok" && !rec.cont) {
+			return
+		}
+	}
 }
 
 func fillRec(rec *reqRec, st *state.State, ca *cache.Cache, rs *recRes) {
